@@ -31,6 +31,8 @@ import ClipperVerif.Driver.AelOpenRings
 import ClipperVerif.Driver.HorzJoins
 import ClipperVerif.Driver.C08Tidy
 import ClipperVerif.Driver.SweepEvents
+import ClipperVerif.Driver.AelRingsZ
+import ClipperVerif.Driver.AelOpenRingsZ
 import ClipperVerif.Driver.JoinCond
 namespace Clipper.Driver
 open Clipper.Proto
@@ -69,7 +71,9 @@ def handlers : List (String → Option (P String)) := [
   HorzJoins.handle,
   C08Tidy.handle,
   JoinCond.handle,
-  SweepEvents.handle
+  SweepEvents.handle,
+  AelRingsZ.handle,
+  AelOpenRingsZ.handle
 ]
 
 def dispatch1 (cmd : String) : Option (P String) :=
